@@ -21,6 +21,7 @@
 package engine
 
 import (
+	"fmt"
 	"go/ast"
 	"go/token"
 	"reflect"
@@ -90,6 +91,14 @@ func (c *replacerCompiler) compile(v reflect.Value) Replacer {
 		})
 	case goast.ForStmtPtrType:
 		return c.compileForStmt(v)
+	case dotsPtrType:
+		// Elisions in lists and in "for ... {" are handled by the cases
+		// above. Anywhere else we have nothing to reproduce in its place,
+		// and go/printer cannot print a pgo.Dots.
+		return errorReplacer{
+			Err: fmt.Errorf(`%v: "..." is not supported in this position`,
+				c.fset.Position(v.Interface().(*pgo.Dots).Pos())),
+		}
 	case goast.CommentGroupPtrType:
 		// TODO: We're currently ignoring comments in the replacement patch.
 		// We should probably record them and report them in the top-level
@@ -117,4 +126,14 @@ type ZeroReplacer struct{ Type reflect.Type }
 // Replace replaces with a zero value.
 func (r ZeroReplacer) Replace(data.Data, Changelog, token.Pos) (reflect.Value, error) {
 	return reflect.Zero(r.Type), nil
+}
+
+var dotsPtrType = reflect.TypeOf((*pgo.Dots)(nil))
+
+// errorReplacer is a Replacer that always fails.
+type errorReplacer struct{ Err error }
+
+// Replace reports the error.
+func (r errorReplacer) Replace(data.Data, Changelog, token.Pos) (reflect.Value, error) {
+	return reflect.Value{}, r.Err
 }
